@@ -5,13 +5,13 @@ import importlib, sys, os
 sys.path.insert(0, os.path.dirname(__file__))
 g = importlib.import_module("c11")
 
-TN = ["t1", "t2", "t3"]
+TN = ["t1", "t2", "t3", "t4"]      # t4 (p, q) consists of its primary key only
 
 
 class C14(flow.Spec):
     pid = "C14"
     shards = 16
-    rule = ("real UpdatesManager listeners on t1, t2 and t3 (composite key) of a real agent; histories of inserts, updates, "
+    rule = ("real UpdatesManager listeners on t1, t2, t3 (composite key) and t4 (primary key only) of a real agent; histories of inserts, updates, "
             "deletes, re-inserts and key changes on a small key space, applied locally (api_v1_transactions) and authored on "
             "a second real agent and delivered through process_multiple_changes in 6 batchings (in order, reversed, one call "
             "per changeset, split chunks second-half-first = buffered path, duplicated); notification batches cut by the "
@@ -42,6 +42,12 @@ class C14(flow.Spec):
                 for _ in range(rnd.randrange(1, 4)):
                     k = rnd.randrange(1, 4)
                     st = [g.rstmt(rnd) for _ in range(k)]
+                    # a table made of its primary key only: a row creation is described by the
+                    # sentinel change alone
+                    for j in range(k):
+                        if rnd.random() < 0.3:
+                            pq = "%d %d" % (rnd.randrange(1, 3), rnd.randrange(1, 3))
+                            st[j] = ("I 3 " + pq, "pk-only-insert") if rnd.random() < 0.6 else ("X 3 " + pq, "pk-only-delete")
                     for _, tg in st:
                         tags.add(tg)
                     if rnd.random() < 0.5:
@@ -114,7 +120,7 @@ class C14(flow.Spec):
         if not st:
             return False
         per = model_obs.split(" || ")
-        if len(per) != 3:
+        if len(per) != len(TN):
             return False
         for ti, tn in enumerate(TN):
             msteps = per[ti].split(" # ") if len(st) > 1 else []
@@ -136,8 +142,8 @@ class C14(flow.Spec):
         if not st:
             return []
         out = []
-        changed = [set(), set(), set()]
-        notes = [[], [], []]
+        changed = [set() for _ in TN]
+        notes = [[] for _ in TN]
         for si in range(1, len(st)):
             prev = st[si - 1]["db"].split("|"); cur = st[si]["db"].split("|")
             for ti, tn in enumerate(TN):
